@@ -233,7 +233,9 @@ class Parser(Node):
             self.parsed.append('part_value')
             return
         # If not block value, parse standard text value
-        m=re.match(r'^(("""(.*)"""|"(.*)"|\'(.*)\'|([^# ]+)))', self.ccode)
+        # a quoted value ends at the first closing quote that is followed only by units and/or a comment
+        tail = r'(?=(?:\s+[^\s#=]+)?\s*(?:#.*)?$)'
+        m=re.match(r'^(("""(.*)"""|"(.*?)"'+tail+r'|\'(.*?)\''+tail+r'|([^# ]+)))', self.ccode)
         if m:
             self.parsed.append('part_value')
             # Reduce matches
